@@ -1379,6 +1379,56 @@ def rule_W_NEW(ctx, d, parts=('dispatch', 'forward'), only=None):
                          tname, ', '.join(lost), d.name, lost[0], lost[0]), where(d, new.node.lineno), render_path(o))
 
 
+def _stale_terms(v, out):
+    """sub-terms that snapshot the state of the cache object: a state predicate, or a call on / with the cache"""
+    if not isinstance(v, tuple) or not v:
+        return
+    if v[0] == 'pred':
+        out.append(v)
+        return
+    if v[0] == 'call' and len(v) > 2:
+        f = v[1]
+        on_cache = isinstance(f, tuple) and f and f[0] == 'attr' and f[1] == ('role', 'cache')
+        with_cache = any(a == ('role', 'cache') for a in (v[2] or ()))
+        if on_cache or with_cache:
+            out.append(v)
+            return
+    for x in v[1:]:
+        if isinstance(x, tuple):
+            _stale_terms(x, out)
+
+
+def rule_W_FRESH(ctx, d):
+    """W-FRESH: the wrapper consults the cache's state (is an archive attached, how many entries are resident) at the time of the call.
+    A value computed from the cache object once, when the function is decorated, and then read by the closures is a stale snapshot: the
+    archive can be attached, detached or swapped afterwards (f.archive(obj), cache.archived(False)), and the per-call decisions - load
+    before evaluating, dump before evicting - then follow the old state."""
+    fn = d.call_fi.node
+    used = set()
+    for node in ast.walk(fn):
+        if isinstance(node, (ast.FunctionDef, ast.Lambda)) and node is not fn:
+            for x in ast.walk(node):
+                if isinstance(x, ast.Name) and isinstance(x.ctx, ast.Load):
+                    used.add(x.id)
+    n = 0
+    for k, v in d.env.items():
+        if not isinstance(v, tuple) or v[0] == 'closure':
+            continue
+        n += 1
+        st = []
+        _stale_terms(v, st)
+        ok = not (st and k in used)
+        ctx.ob('W-FRESH', '%s.__call__ local %s' % (d.name, k), ok)
+        if not ok:
+            ctx.fail('W-FRESH', d.qual, 'stale snapshot %s = %s' % (k, render(v)[:50]),
+                     '%s.__call__ computes `%s` from the state of the cache object (%s) once, at decoration time, and the closures it returns read that '
+                     'snapshot on every call: after the archive is attached, detached or replaced (f.archive(obj), cache.archived(False)) the wrapper still '
+                     'acts on the old state - it skips the load before evaluating (a retrievable result is computed again) or the dump before evicting'
+                     % (d.name, k, render(st[0])[:50]), where(d, fn.lineno))
+    if n < 5:
+        raise AnalysisError('instance count below confirmed minimum: %d locals bound in %s.__call__ (< 5)' % (n, d.qual))
+
+
 def rule_W_STATE(ctx, d, keys=('maxsize', 'purge'), allow_default=False):
     """the configured bound and purge flag are stored as given: on every path of __init__ that fills __state__, state[k] is the constructor
     parameter k itself, or one constant the class pins k to on all paths (no_cache: maxsize 0).  A value decided at construction time from the
